@@ -390,9 +390,13 @@ def k_pus_history(ctx, which, seed, nsteps, start="constructed"):
         g = ctx.check("history.length", len(raw) == probe.packet_len, "reported_length_differs_from_packed", f"{which}/{label}", c, reported=probe.packet_len, packed=len(raw))
         g &= ctx.check("history.length_field", int.from_bytes(raw[4:6], "big") == len(raw) - 7, "length_field_wrong", f"{which}/{label}", c,
                        field=int.from_bytes(raw[4:6], "big"), required=len(raw) - 7)
+        if step_i & 1:
+            ok3, raw3 = attempt(lambda: bytes(probe.to_space_packet().pack()))     # the generic view between the two packs
+            g &= ctx.check("history.pack_repeatable", ok3 and raw3 == raw, "space_packet_view_differs_from_pack", f"{which}/{label}", c)
         ok2, raw2 = attempt(probe.pack)
         g &= ctx.check("history.pack_repeatable", ok2 and bytes(raw2) == raw, "second_pack_differs", f"{which}/{label}", c)
         g &= ctx.check("history.pack_repeatable", probe == snap and snap == probe, "pack_changed_equality", f"{which}/{label}", c)
+        g &= ctx.check("history.length", probe.packet_len == len(raw), "reported_length_differs_after_packing", f"{which}/{label}", c, reported=probe.packet_len, packed=len(raw))
         return g
 
     if not state("after_" + start, data, -1):
@@ -400,10 +404,17 @@ def k_pus_history(ctx, which, seed, nsteps, start="constructed"):
     cur = data
     for i in range(nsteps):
         cur = rand_bytes(r, r.choice((0, 1, 2, 3, 9, 40, 300)))
-        setattr(obj, setter, cur)
+        handed = bytearray(cur) if r.random() < 0.5 else cur            # the caller's own (possibly mutable) buffer
+        setattr(obj, setter, handed)
         ctx.table("setter_cells", f"{which}.{setter}/{start}")
-        if r.random() < 0.3:
+        ctx.table("handed_over_as", type(handed).__name__)
+        how = r.choice(("pack", "view", "none", "both"))
+        if how in ("pack", "both"):
             obj.pack()          # fill the CRC cache between steps
+        if how in ("view", "both"):
+            obj.to_space_packet()
+        if not ctx.check("history.inputs_untouched", bytes(handed) == cur, "caller_buffer_modified", f"{which}.{setter}/{type(handed).__name__}/after_{how}", dict(case, failing_step=i)):
+            return
         if not state(f"after:{setter}", cur, i):
             return
 
